@@ -1,6 +1,9 @@
 package turochamp
 
 import (
+	"math"
+
+	"github.com/herohde/morlock/pkg/eval"
 	"context"
 
 	"github.com/herohde/morlock/pkg/board"
@@ -47,4 +50,71 @@ func Harness_C20_TurochampPieceValue() {
 	verifReach("piecevalue")
 	v := pieceValue(p)
 	verifAssert(v >= 1 && v <= 100, "every piece has a positive finite value")
+}
+
+// ---- TUROCHAMP totality, decomposed ----
+// (1) the per-side material sum is at least half a pawn (the divisor of the ratio is never 0):
+//     real material() on two kings plus up to three further pieces of symbolic kind and colour
+func Harness_C20_TurochampMaterialFloor() {
+	wk, bk := 3, 59
+	pl := []board.Placement{{Square: board.Square(wk), Color: board.White, Piece: board.King}, {Square: board.Square(bk), Color: board.Black, Piece: board.King}}
+	for i := 0; i < 3; i++ {
+		sq := [3]int{10, 36, 49}[i]
+		c := board.Color(nondetU8("colour") & 1)
+		k := board.Piece(nondetU8("kind") & 7)
+		verifAssume(k >= board.Pawn && k <= board.Queen)
+		if nondetBool("present") {
+			pl = append(pl, board.Placement{Square: board.Square(sq), Color: c, Piece: k})
+		}
+	}
+	pos, err := board.NewPosition(pl, 0, 0)
+	if err != nil {
+		panic("distinct squares")
+	}
+	side := board.Color(nondetU8("side") & 1)
+	verifReach("turochamp-floor")
+	v := material(pos, side)
+	verifAssert(v >= 0.5 && v <= 30, "a side's TUROCHAMP material is at least half a pawn and bounded by the pieces present")
+}
+
+// (2) the ratio of two material sums of at least half a pawn is finite: real Material.Evaluate
+var specMat [2]eval.Pawns
+
+func specMaterialSum(pos *board.Position, turn board.Color) eval.Pawns { return specMat[turn] }
+
+func Harness_C20_TurochampRatio() {
+	for s := 0; s < 2; s++ {
+		v := eval.Pawns(nondetF32("material"))
+		verifAssume(v >= 0.5 && v <= 1040) // at most 9 queens, 2 rooks, 2 bishops, 2 knights... far below
+		specMat[s] = v
+	}
+	b, _ := symMaterialBoards(0)
+	verifReach("turochamp-ratio")
+	v := float64(Material{}.Evaluate(context.Background(), b))
+	verifAssert(!math.IsNaN(v) && !math.IsInf(v, 0) && v <= 2080 && v >= -2080, "the TUROCHAMP material ratio is a finite number")
+	own, opp := specMat[b.Turn()], specMat[b.Turn().Opponent()]
+	verifAssert((v > 0) == (own > opp) && (v < 0) == (own < opp), "the TUROCHAMP material ratio favours the side with more material")
+}
+
+// (3) the combination of material ratio and position play is finite: real Eval.Evaluate
+var specMatEval, specPP [2]eval.Pawns
+
+func specMaterialEvaluate(m Material, ctx context.Context, b *board.Board) eval.Pawns {
+	return specMatEval[0]
+}
+func specPositionPlay(b *board.Board, turn board.Color) eval.Pawns { return specPP[turn] }
+
+func Harness_C20_TurochampCombine() {
+	m := eval.Pawns(nondetF32("ratio"))
+	verifAssume(m >= -2080 && m <= 2080)
+	specMatEval[0] = m
+	for s := 0; s < 2; s++ {
+		p := eval.Pawns(nondetF32("positionplay"))
+		verifAssume(p >= -1000 && p <= 1000)
+		specPP[s] = p
+	}
+	b, _ := symMaterialBoards(0)
+	verifReach("turochamp-combine")
+	v := float64(Eval{}.Evaluate(context.Background(), b))
+	verifAssert(!math.IsNaN(v) && !math.IsInf(v, 0), "the TUROCHAMP evaluation is a finite number")
 }
